@@ -103,6 +103,10 @@ def run(chk):
     if len(load) != 1:
         raise AnalysisError('staging: loading loop not recognised')
     L = load[0]
+    from ..core.srcmodel import early_exits
+    ex = early_exits(L)
+    chk.check(not ex, 'C12-R2', HOD, Q, 'every slab iteration reaches both ticker updates (no continue/break)', '',
+              f'{type(ex[0]).__name__.lower() if ex else ""} at line {ex[0].lineno if ex else 0} skips the rest of a slab iteration: later slabs would be stored at stale offsets', node=ex[0] if ex else L, nontrivial=False)
     for allocs_, ticker, counts in ((H, 'halo_ticker', 'Nhalos'), (part_allocs, 'parts_ticker', 'Nparts')):
         stores = {}
         for n in walk_no_nested(L):
